@@ -28,6 +28,7 @@ def hexs(a):
 class State:
     def __init__(self):
         self.models, self.kernels, self.direct, self.sasview = {}, {}, {}, {}
+        self.held = []       # (step, array object as returned, its content at that time): results the caller keeps
 
 S = State()
 
@@ -81,9 +82,13 @@ def handle(req):
         if op == "call_kernel":
             r = call_kernel(k, pars, cutoff=req["cutoff"])
             out["result"] = hexs(r)
+            S.held.append((req.get("step"), r, np.array(r, copy=True)))
         else:
             F1, F2, reff, shell, ratio = call_Fq(k, pars, cutoff=req["cutoff"])
             out["result"] = [hexs(F1), hexs(F2), float(reff).hex(), float(shell).hex(), float(ratio).hex()]
+            for a_ in (F1, F2):
+                if a_ is not None:
+                    S.held.append((req.get("step"), a_, np.array(a_, copy=True)))
         out["args_unchanged"] = same(before, pars)
         return out
     if op == "direct":
@@ -140,6 +145,12 @@ for line in sys.stdin:
         res = handle(req)
     except Exception as exc:
         res = {"op": req.get("op"), "error": "%s: %s" % (type(exc).__name__, exc)}
+    # arrays handed back earlier belong to the caller: later evaluations must not change them
+    S.held = S.held[-8:]
+    spoiled = [st for st, a_, c_ in S.held if not np.array_equal(np.asarray(a_), c_, equal_nan=True)]
+    if spoiled:
+        res["earlier_results_changed"] = spoiled
+        S.held = [h for h in S.held if np.array_equal(np.asarray(h[1]), h[2], equal_nan=True)]
     print(json.dumps(res)); sys.stdout.flush()
 '''
 
@@ -458,7 +469,7 @@ def main(run):
     def play(h):
         w = Worker(wpath, cache)
         try:
-            return [w.ask(req) for req in h]
+            return [w.ask(dict(req, step=i)) for i, req in enumerate(h)]
         finally:
             w.close()
 
@@ -491,6 +502,9 @@ def main(run):
             if got.get("result") != want.get("result"):
                 run.add(Finding("C11:history:%s:%s" % (req["op"], req["model"]),
                                 "step %d of a history: %s(%s) returned different bits than the same request made first in a fresh process" % (i, req["op"], req["model"]), desc))
+            if got.get("earlier_results_changed"):
+                run.add(Finding("C11:result-overwritten:%s" % req["op"], "step %d %s(%s) changed the arrays returned by step(s) %s of the same history (results handed to the caller are overwritten by later evaluations)" % (
+                    i, req["op"], req["model"], got["earlier_results_changed"]), desc))
             if got.get("args_unchanged") is False:
                 run.add(Finding("C11:args-modified:%s" % req["op"], "%s(%s) modified its argument objects" % (req["op"], req["model"]), desc))
     for h in histories[:3]:
